@@ -44,7 +44,9 @@ def members(ctx):
 SIGOPTS = [[], [("ts", 0, 3, 4)], [("ts", 4, 3, 4)], [("ts", 4, 4, 4)], [("ks", 2, "G")], [("ts", 0, 3, 4), ("ks", 2, "G")],
            [("ks", 2, "D")], [("ts", 0, 3, 4), ("ts", 4, 4, 4)], [("ts", 4, 3, 8)], [("ts", 0, 3, 4), ("ts", 6, 3, 8)],
            # a member restating its own signature (a repeat in its own context, not in the merged one)
-           [("ts", 0, 3, 4), ("ts", 6, 3, 4)], [("ks", 0, "G"), ("ks", 6, "G")], [("ks", 4, "D")]]
+           [("ts", 0, 3, 4), ("ts", 6, 3, 4)], [("ks", 0, "G"), ("ks", 6, "G")], [("ks", 4, "D")],
+           # different signatures of equal bar length
+           [("ts", 0, 3, 4), ("ts", 6, 6, 8)], [("ts", 6, 6, 8)], [("ts", 4, 2, 2)]]
 
 
 def units(ctx):
